@@ -1,6 +1,6 @@
 """C05 - condition events fire exactly when their predicate first holds, with exact value."""
 from mc.explore import Result
-from mc.kclient import Err, INF
+from mc.kclient import Err, Abort, INF
 
 from onl.sim import Environment
 
@@ -23,7 +23,7 @@ ASSUMPTIONS = [
     "nobody consumes) are not judged",
 ]
 LEAVES = [("T", 0), ("T", 1), ("T", 2), ("E", 0, 1), ("E", 1, 1), ("E", 2, 1), ("E", 1, 0), ("E", 2, 0), ("P", 1, 1), ("P", 1, 0), ("P", 0, 1),
-          ("E", 0, 0), ("P", 0, 0)]
+          ("E", 0, 0), ("P", 0, 0), ("P", 1, 0, "B")]       # "B": the child dies of a BaseException that is not an Exception
 LEAVES_S = [("T", 0), ("T", 1), ("E", 0, 1), ("E", 1, 1), ("E", 1, 0), ("P", 1, 1), ("P", 1, 0), ("E", 0, 0)]
 DUP = ("DUP",)      # the first leaf's event object once more (an event shared by two operands / two sub-conditions)
 ROOTS = [("all", 0), ("any", 0), ("all", 1), ("any", 1), ("all", 2), ("any", 2), ("and",), ("or",), ("all", 3), ("any", 3)]
@@ -155,12 +155,14 @@ def execute(ch, cfg):
             yield env.timeout(n.spec[1])
         if n.ok:
             return n.val
+        if len(n.spec) > 3:
+            raise Abort(n.val)
         raise Err(n.val)
 
     def catch(n):
         try:
             yield n.ev
-        except Err:
+        except (Err, Abort):
             pass
 
     def mk_helpers():
@@ -206,14 +208,17 @@ def execute(ch, cfg):
                 evs[-1].succeed("foreign")
                 other.run()
         s = n.spec
+        operands = list(evs)      # the caller's own list ...
         if s[0] == "all":
-            n.ev = env.all_of(evs)
+            n.ev = env.all_of(operands)
         elif s[0] == "any":
-            n.ev = env.any_of(evs)
+            n.ev = env.any_of(operands)
         elif s[0] == "and":
             n.ev = evs[0] & evs[1]
         else:
             n.ev = evs[0] | evs[1]
+        if s[0] in ("all", "any"):
+            operands.append(env.event())      # ... which the caller goes on using: the condition took its operands at construction
         if n is not root:
             n.ev.callbacks.append(lambda ev, n=n: log.append((len(log), env.now, "cond", n)))
         return n.ev
@@ -232,7 +237,7 @@ def execute(ch, cfg):
         log.append((len(log), env.now, "built", None))
         try:
             v = yield ev
-        except Err as e:
+        except (Err, Abort) as e:
             got["res"] = ("exc", e.args)
             got["at"] = (env.now, len(log))
             got["n"] = got.get("n", 0) + 1
@@ -398,7 +403,7 @@ def execute(ch, cfg):
                 wk = [l.ev for l in want]
 
                 def same(l, v):
-                    return v == l.val if l.ok else (isinstance(v, Err) and v.args == (l.val,))
+                    return v == l.val if l.ok else (isinstance(v, (Err, Abort)) and v.args == (l.val,))
                 if got["keys"] != wk or any(not same(l, got["dict"][l.ev]) for l in want):
                     missing = [l for l in want if l.ev not in got["keys"]]
                     extra = [e for e in got["keys"] if e not in wk]
@@ -433,11 +438,11 @@ def execute(ch, cfg):
     musts.sort()
     exp = musts[0] if musts else None
     if crashed is not None:
-        ok_allowed = any(crashed[0] == a[1] and crashed[1] == "Err" and crashed[2] == tuple(a[2]) and (exp is None or a[0] < exp[0]) for a in allowed)
+        ok_allowed = any(crashed[0] == a[1] and crashed[1] in ("Err", "Abort") and crashed[2] == tuple(a[2]) and (exp is None or a[0] < exp[0]) for a in allowed)
         if exp is None:
             if not ok_allowed:
-                res.bad("C05.fail", "run-raised-%s" % ("although-the-operand's-failure-counted-as-handled" if crashed[1] == "Err" else crashed[1]), "%s: %r" % (shape_of(root), crashed))
-        elif not ok_allowed and (crashed[0] != exp[1] or crashed[1] != "Err" or crashed[2] != tuple(exp[2])):
+                res.bad("C05.fail", "run-raised-%s" % ("although-the-operand's-failure-counted-as-handled" if crashed[1] in ("Err", "Abort") else crashed[1]), "%s: %r" % (shape_of(root), crashed))
+        elif not ok_allowed and (crashed[0] != exp[1] or crashed[1] not in ("Err", "Abort") or crashed[2] != tuple(exp[2])):
             res.bad("C05.late", "unhandled-operand-failure-raised-wrongly", "%s: expected Err%r at %r, run raised %r" % (shape_of(root), exp[2], exp[1], crashed))
     elif exp is not None:
         res.bad("C05.late", "unhandled-operand-failure-passed-silently", "%s: Err%r at t=%r has no waiting process and no pending condition" % (shape_of(root), exp[2], exp[1]))
